@@ -118,7 +118,8 @@ Definition chol_rows (n : nat) (A : nat -> nat -> F) : seq (seq F) :=
 
 (* batched: A:(B,n,n) flat -> L:(B,n,n) flat *)
 Definition chol_flat (B n : nat) (A : seq F) : seq F :=
-  flatten (mkseq (fun b => flatten (chol_rows n (fun i j => rd A ((b * n + i) * n + j)))) B).
+  let Ls := mkseq (fun b => chol_rows n (fun i j => rd A ((b * n + i) * n + j))) B in
+  tab3 B n n (fun b i j => rd (nth [::] (nth [::] Ls b) i) j).
 
 (* ------------------------------------------------------------------ sampler expressions *)
 
